@@ -695,6 +695,7 @@ PROPERTIES = {
                                   {"stream": "wait", "profile": "shape", "quick": 70, "thorough": 1500, "nontrivial": lambda obs, case: True, "timeout": 1800},
                                   {"stream": "wait", "profile": "timing", "quick": 24, "thorough": 400, "nontrivial": lambda obs, case: True, "timeout": 1800},
                                   {"stream": "wait", "profile": "abandon", "quick": 40, "thorough": 800, "nontrivial": lambda obs, case: True, "timeout": 1800},
+                                  {"stream": "wait", "profile": "cross", "quick": 16, "thorough": 300, "nontrivial": lambda obs, case: True, "timeout": 1800},
                                   # real goroutines ordered event by event against the channel-level model (Props/C10Chan)
                                   {"stream": "chansched", "profile": "mixed", "quick": 300, "thorough": 6000, "nontrivial": lambda obs, case: any(o.startswith("WAIT") for o in obs) and any(o.startswith(("ERR", "LINE")) for o in obs), "timeout": 1800},
                                   {"stream": "chansched", "profile": "wrap", "quick": 150, "thorough": 3000, "nontrivial": lambda obs, case: any(o.startswith("WAIT") for o in obs), "timeout": 1800},
@@ -758,7 +759,9 @@ PROPERTIES = {
                    leanchecker=["Ysgo.Props.C08Layout", "Ysgo.Props.C02Syntax"]),
     "C18": runprop("snap", ("res", "v", "vis"), ("text", "dis"), 600, 20000,
                    nontrivial=lambda obs, case: sum(1 for o in obs if o.startswith("NEW")) >= 1,
-                   extra_streams=[{"stream": "run", "profile": "flow", "quick": 300, "thorough": 3000, "special": special_concurrent}],
+                   extra_streams=[{"stream": "run", "profile": "flow", "quick": 300, "thorough": 3000, "special": special_concurrent},
+                                  # two runners, one of them inside a built-in wait while the other restores / completes / fails (real timers)
+                                  {"stream": "wait", "profile": "cross", "quick": 16, "thorough": 300, "nontrivial": lambda obs, case: True, "timeout": 1800}],
                    generated_facts=["Generated.PackageState (tools/pkgstate): no writable package-level state in the hand-written packages == Props/C18.no_mutable_package_state by decide"],
                    rule="run/snap: several runners of one script created and stepped in deterministic sequential interleavings (logical sharing shows as divergence from the model); concurrent: the same flow cases run sequentially and, under the race detector, each in its own goroutine with 4-32 goroutines and GOMAXPROCS 1-16: every trace must equal the solo trace and the race detector must stay silent",
                    leanchecker=["Ysgo.Props.C18"], trusted=["Go race detector (supporting evidence only)"]),
